@@ -155,6 +155,9 @@ def chao_case(draw, tier="quick"):
         c[1] = 0
     if draw(st.integers(0, 5)) == 0:
         c[0] = 0
+    if draw(st.integers(0, 4)) == 0:
+        # every entry fits a narrow integer dtype, their sum does not
+        c = draw(st.lists(st.integers(40, 120), min_size=3, max_size=8))
     return {"counts": c, "m": draw(st.integers(1, 20)), "as": draw(st.sampled_from(["list", "array", "array32", "narrow"]))}
 
 
